@@ -21,7 +21,9 @@
    which of int/float/len the user has bound in each module, and each function's body
        rec(f.0); [fault]; [call g | nest g | try-nest g]; rec(f.1); [fault]; return [wrong type]
    and then up to MaxCompiles top-level compile() calls run.  `glob[m][n]` is what name n
-   is bound to in module m: "absent", "user" (the user's own object) or "mock".
+   is bound to in module m: "absent", the user's own value - "user" (a function / string /
+   float object), "none" (the value None) or "zero" (the value 0) - or "mock".
+   A user binding is written "<name>=<kind>" in the BindOptions sets.
    `stack` is the control stack: compile invocations ("ctx") and live traces ("frame").
 
    Property: whenever no trace is live (depth 0) every module namespace equals the
@@ -34,7 +36,7 @@ EXTENDS Naturals, Sequences, FiniteSets, TLC, Json
 
 CONSTANTS NF,            \* number of comptime functions f1..fNF
           Mods,          \* module names, "A" always present
-          BindOptions,   \* allowed sets of user-bound names per module
+          BindOptions,   \* allowed sets of user bindings "<name>=<kind>" per module
           Faults,        \* allowed fault kinds of a body
           AllowNest,     \* BOOLEAN: bodies may run nested compile()s
           MaxCompiles,   \* top-level compile() calls per session
@@ -54,7 +56,7 @@ AllMock == [n \in Names |-> "mock"]
 
 VARIABLES phase,      \* "place" -> "bind" -> "script" -> "run"
           place,      \* [Fns -> Mods]
-          bind,       \* [Mods -> SUBSET Names]  user-bound names
+          bind,       \* [Mods -> BindOptions]  the user's bindings of the shadowed names
           script,     \* sequence over Fns of [call, fault]
           glob,       \* [Mods -> [Names -> {"absent","user","mock"}]]
           stack,      \* control stack, innermost last
@@ -63,7 +65,12 @@ VARIABLES phase,      \* "place" -> "bind" -> "script" -> "run"
           hist        \* completed top-level steps
 vars == <<phase, place, bind, script, glob, stack, exc, cur, hist>>
 
-InitGlob == [m \in Mods |-> [n \in Names |-> IF n \in bind[m] THEN "user" ELSE "absent"]]
+Kinds == {"user", "none", "zero"}     \* kinds of values a user binds to a shadowed name
+BoundKind(b, n) ==                    \* b: a set of "<name>=<kind>" strings
+    IF \E k \in Kinds : (n \o "=" \o k) \in b
+    THEN CHOOSE k \in Kinds : (n \o "=" \o k) \in b
+    ELSE "absent"
+InitGlob == [m \in Mods |-> [n \in Names |-> BoundKind(bind[m], n)]]
 
 Init ==
     /\ phase = "place"
